@@ -1,6 +1,6 @@
 SPECIFICATION Spec
 CONSTANTS
-  Fams = {"stacked", "overlap", "nested"}
+  Fams = {"adjacent", "stacked"}
   MaxRoutes = 2
   PerClass = 2
   DEV_RemoveNoRebuild = FALSE
